@@ -724,6 +724,55 @@ def _cases(rng, tier):
         d = gen_case(rng)
         d["pols"] = [{"pol": "align", "upd": True, "il": True, "pick": [rng.random(), rng.random()], "am": rng.random()}]
         yield d
+    # round 6 (missed seeds k, l), AFTER everything else again:
+    #  * notes / rests HELD over a boundary at which paths jump (parts read from MusicXML never have them, parts built through the
+    #    API may): the `copies` clause demands the unchanged duration on every visit
+    #  * in-place edits of plain attributes the paths depend on (Ending.number) between two unfoldings of one Part object
+    for i in range({"quick": 36, "thorough": 400, "search": 600}.get(tier, 36)):
+        r = rng.random()
+        d = (shape_case(rng, rng.choice(["simple", "volta", "nav", "nestvolta"])) if r < 0.4 else
+             blocks_case(rng, 2, 10, light=False) if r < 0.55 else gen_case(rng))
+        if d.get("k") == "fixture" or "part" not in d:
+            continue
+        d.pop("hist", None)
+        if i % 3 != 2:
+            add_held(rng, d["part"])
+            if not any(p_["pol"] == "max" for p_ in d["pols"]):
+                d["pols"].append({"pol": "max", "upd": rng.random() < 0.5, "il": rng.random() < 0.5, "pick": [0, 0]})
+        if i % 3 != 0:
+            ren = {}
+            for cls, st, en, kw in d["part"].get("extras", []):
+                if cls == "Ending":
+                    was = rng.choice([x for x in ("1", "2", "3", "1,2", "2,3", "1,2,3", "4") if x != str(kw.get("number"))])
+                    ren["%s:%s:%s" % (st, en, kw.get("number"))] = was
+            if ren:
+                d["renum"] = ren
+                d["prereg"] = False
+        yield d
+
+
+def add_held(rng, d):
+    """notes / rests of a further voice that start before a structural boundary (repeat sign, bracket, navigation mark) and end after it"""
+    last = max([m[1] for m in d["measures"]]) if isinstance(d.get("measures"), list) and d["measures"] else max(
+        [n["t"] + n["dur"] for n in d["notes"]] + [1])
+    bounds = sorted(set(t for cls, st, en, kw in d.get("extras", []) if cls in (
+        "Repeat", "Ending", "DaCapo", "DalSegno", "Fine", "Segno", "Coda", "ToCoda") for t in (st, en) if t is not None and 0 < t < last))
+    if not bounds:
+        bounds = [t for t in sorted(set(m[0] for m in d["measures"])) if 0 < t < last][:3] if isinstance(d.get("measures"), list) else []
+    staves = sorted(set(n["staff"] for n in d["notes"])) or [1]
+    k = 0
+    for _ in range(rng.choice([1, 1, 2, 3])):
+        if not bounds:
+            break
+        b = rng.choice(bounds)
+        t = rng.randint(max(0, b - rng.choice([1, 2, 4, 8, 24])), b - 1)
+        end = rng.randint(b + 1, min(last, b + rng.choice([1, 2, 4, 8, 24, 96])))
+        kind = "rest" if rng.random() < 0.2 else "note"
+        n = {"id": "h%d" % k, "t": t, "dur": end - t, "kind": kind, "step": rng.choice(G.STEPS), "alter": 0, "oct": rng.randint(2, 5),
+             "voice": rng.choice([3, 3, 4, 1]), "staff": rng.choice(staves)}
+        d["notes"].append(n)
+        k += 1
+    return d
 
 
 # ------------------------------------------------------------------------------ building and reading the real objects
@@ -754,6 +803,25 @@ def build(desc):
                     pass
             p.add(o, st, en)
     byid = {n.id: n for n in p.iter_all(S.GenericNote, include_subclasses=True)}
+    if desc.get("renum") and not desc.get("_twin"):
+        # an edit history on plain attributes: the brackets first carry other numbers, the part is unfolded in that state by every
+        # entry point, then Ending.number is assigned in place (no add / remove).  The finished part is the one described by `d`.
+        pend = []
+        for o in p.iter_all(S.Ending):
+            was = desc["renum"].get("%s:%s:%s" % (o.start.t, None if o.end is None else o.end.t, o.number))
+            if was is not None:
+                pend.append((o, o.number))
+                o.number = was
+        if pend:
+            for f in (lambda: S.get_paths(p), lambda: S.get_paths(p, all_repeats=True, ignore_leap_info=False),
+                      lambda: S.get_paths(p, no_repeats=True), lambda: S.unfold_part_maximal(p), lambda: S.unfold_part_minimal(p),
+                      lambda: list(S.iter_unfolded_parts(p))):
+                try:
+                    guarded(f, 3)
+                except _Timeout:
+                    pass
+            for o, num in pend:
+                o.number = num
     for cls, a, b in d.get("spans", []):
         na, nb = byid.get(a), byid.get(b)
         if na is None or nb is None:
@@ -1938,6 +2006,42 @@ def _evaluate(desc):
                 return Eval()
             if plist is not None and (e3 is not None or [list(p.path) for p in paths2] != plist):
                 ev.oracle.append("second-call: %s: get_paths gives different paths on the second call" % tagname)
+
+    # ---- history clause (round 6, independent of the model): a part whose bracket numbers were assigned in place after it had been
+    #      unfolded is unfolded like a freshly built twin that never carried other numbers
+    if desc.get("renum"):
+        twin = build(dict(desc, _twin=True))
+        tobjs = tag(twin)
+        for pol in desc["pols"]:
+            if pol["pol"] not in ("max", "min", "all"):
+                continue
+            nr, ar, il = FLAGS[pol["pol"]](pol)
+            upd = pol["upd"] if pol["pol"] != "min" else False
+            try:
+                pa, ea = guarded(lambda: S.get_paths(part, no_repeats=nr, all_repeats=ar, ignore_leap_info=il))
+                pb, eb = guarded(lambda: S.get_paths(twin, no_repeats=nr, all_repeats=ar, ignore_leap_info=il))
+            except _Timeout:
+                break
+            la = None if ea is not None else [list(x.path) for x in pa]
+            lb = None if eb is not None else [list(x.path) for x in pb]
+            if la != lb:
+                ev.oracle.append("history: %s: after Ending.number was assigned in place the paths are %r, a freshly built part with the same "
+                                 "numbers has %r" % (pol["pol"], None if la is None else ["-".join(x) for x in la[:2]],
+                                                     None if lb is None else ["-".join(x) for x in lb[:2]]))
+                break
+            if la is None or len(la) > 8:
+                continue
+            fn = {"max": lambda q: [S.unfold_part_maximal(q, update_ids=upd, ignore_leaps=il)], "min": lambda q: [S.unfold_part_minimal(q)],
+                  "all": lambda q: list(S.iter_unfolded_parts(q, update_ids=upd))}[pol["pol"]]
+            try:
+                ua, ea = guarded(lambda: fn(part), 30)
+                ub, eb = guarded(lambda: fn(twin), 30)
+            except _Timeout:
+                break
+            if (ea is None) != (eb is None) or (ea is None and [canon_variant(x, objs) for x in ua] != [canon_variant(x, tobjs) for x in ub]):
+                ev.oracle.append("history: %s: after Ending.number was assigned in place the unfolded part differs from the unfolding of a "
+                                 "freshly built part with the same numbers" % pol["pol"])
+                break
 
     # ---- the argument is untouched
     f1 = G.fingerprint_part(part, with_ids=True)
